@@ -33,6 +33,13 @@ Loose(n) == [processes |-> (<<"agents", n>> :> ("L." \o n)),
              topology  |-> (<<"agents", n>> :> ("L." \o n \o ".topo")),
              state     |-> (<<"agents", "st", n>> :> ("L." \o n \o ".state"))]
 
+\* loose entries nested under "q", a key that template B also nests under
+LooseQ(n) == [processes |-> (<<"q", n>> :> ("LQ." \o n)),
+              steps     |-> <<>>,
+              flow      |-> <<>>,
+              topology  |-> (<<"q", n>> :> ("LQ." \o n \o ".topo")),
+              state     |-> (<<"q", "st", n>> :> ("LQ." \o n \o ".state"))]
+
 EmbedPaths == {<<>>, <<"x">>, <<"x", "y">>}
 Prefix(path, f) == [q \in {path \o p : p \in DOMAIN f} |->
                       f[SubSeq(q, Len(path) + 1, Len(q))]]
@@ -58,7 +65,15 @@ MergeLoose(i, n, path) ==
   /\ objs' = [objs EXCEPT ![i] = MergeC(objs[i], Loose(n), path)]
   /\ steps' = steps + 1 /\ last' = [a |-> "loose", i |-> i, n |-> n, path |-> path]
 
+\* a composite and loose parts in one call: the loose parts are merged over the
+\* composite's (later entries win), the result under the path into the target
+MergeBoth(i, j, n, path) ==
+  /\ steps < MaxSteps /\ i \in DOMAIN objs /\ j \in DOMAIN objs /\ i # j
+  /\ objs' = [objs EXCEPT ![i] = MergeC(objs[i], MergeC(objs[j], LooseQ(n), <<>>), path)]
+  /\ steps' = steps + 1 /\ last' = [a |-> "both", i |-> i, j |-> j, n |-> n, path |-> path]
+
 Next ==
+  \/ \E i, j \in DOMAIN objs, n \in {"n1"}, path \in {<<>>, <<"x">>} : MergeBoth(i, j, n, path)
   \/ \E t \in {"A", "B"}, path \in EmbedPaths : Generate(t, path)
   \/ \E i, j \in DOMAIN objs, path \in EmbedPaths : MergeComposite(i, j, path)
   \/ \E i \in DOMAIN objs, n \in {"n1", "n2"}, path \in {<<>>, <<"x">>} : MergeLoose(i, n, path)
@@ -68,7 +83,7 @@ Spec == Init /\ [][Next]_vars
 \* other object) is unchanged, then and later
 C16_OnlyTargetChanges ==
   [][\A k \in DOMAIN objs :
-        (last'.a \in {"merge", "loose"} /\ k # last'.i) => objs'[k] = objs[k]]_vars
+        (last'.a \in {"merge", "loose", "both"} /\ k # last'.i) => objs'[k] = objs[k]]_vars
 \* C16: the merge result is the union under the path, later entries winning
 C16_MergeIsUnion ==
   [][last'.a = "merge" =>
